@@ -134,9 +134,11 @@ def check_values(res, f, label, merged_truths=None):
     sr = float(extra.get('sample_rate', 100.0))
     exp_dur = np.array([(Cw[k][:, cpeak[k]].argmax() - Cw[k][:, cpeak[k]].argmin())
                         for k in range(Cw.shape[0])], dtype=np.float64) / sr * 1e3
-    exp_dur[empties] = np.nan
+    # ids without spikes: the statement gives NaN for depths only; for durations it is silent (the
+    # repository's own test expects a value there for uncurated datasets), so they are not compared
+    nonempty = uniq & ~np.isin(np.arange(Cw.shape[0]), empties)
     pt = get('clusters.peakToTrough.npy')
-    if pt is None or pt.shape != exp_dur.shape or not np.allclose(pt[mask], exp_dur[mask],
+    if pt is None or pt.shape != exp_dur.shape or not np.allclose(pt[nonempty], exp_dur[nonempty],
                                                                   equal_nan=True):
         bad.append(('clusters.peakToTrough', 'value', describe(exp_dur), describe(pt)))
     sd = get('spikes.depths.npy')
